@@ -1,3 +1,4 @@
+use core::fmt;
 use core::marker::PhantomData;
 use core::mem;
 use core::mem::ManuallyDrop;
@@ -21,12 +22,27 @@ use super::Arc;
 ///
 /// `ArcBorrow` lets us deal with borrows of known-refcounted objects
 /// without needing to worry about where the `Arc<T>` is.
-#[derive(Debug, Eq, PartialEq)]
 #[repr(transparent)]
 pub struct ArcBorrow<'a, T: ?Sized + 'a>(pub(crate) NonNull<T>, pub(crate) PhantomData<&'a T>);
 
 unsafe impl<'a, T: ?Sized + Sync + Send> Send for ArcBorrow<'a, T> {}
 unsafe impl<'a, T: ?Sized + Sync + Send> Sync for ArcBorrow<'a, T> {}
+
+impl<'a, T: ?Sized + PartialEq> PartialEq for ArcBorrow<'a, T> {
+    #[inline]
+    fn eq(&self, other: &Self) -> bool {
+        // Compare the values, like `Arc` and `&T` do, not the addresses.
+        unsafe { *self.0.as_ptr() == *other.0.as_ptr() }
+    }
+}
+
+impl<'a, T: ?Sized + Eq> Eq for ArcBorrow<'a, T> {}
+
+impl<'a, T: ?Sized + fmt::Debug> fmt::Debug for ArcBorrow<'a, T> {
+    fn fmt(&self, f: &mut fmt::Formatter) -> fmt::Result {
+        fmt::Debug::fmt(unsafe { &*self.0.as_ptr() }, f)
+    }
+}
 
 impl<'a, T> Copy for ArcBorrow<'a, T> {}
 impl<'a, T> Clone for ArcBorrow<'a, T> {
